@@ -200,6 +200,91 @@ func checkC13(w *Worker) {
 		want := []csvWant{{"zz", n2, exactDec("1")}, {n1, n2, exactDec(q)}, {n1, "cal", exactDec("2")}, {n1, n2, exactDec("1")}}
 		verify(x, appCase{Args: []string{"csv", "database"}, Files: map[string]string{"food.yaml": book}}, want, 2, "database")
 	})
+	// book shapes: two foods over every subset of three elements (listed in either order), a recipe made of any
+	// sequence of {food A, food B, a plain element}, optionally used by a further recipe; rows sorted by recipe, then element
+	w.Explore("csv-resolved-book-shapes", ExploreOpts{ShardDepth: 3}, func(x *Exec) {
+		els := []string{"protein", "calories", "fat, \"sat\" x"} // (not ending in a quote: the tokenizer trims those, see 9.4)
+		sa := 1 + x.Choose(7, "input:elements-of-a")
+		sb := 1 + x.Choose(7, "input:elements-of-b")
+		rev := x.Choose(2, "input:element-order")
+		seqs := [][]string{{"a"}, {"b"}, {"salt"}, {"a", "b"}, {"b", "a"}, {"a", "salt"}, {"salt", "a"}, {"b", "salt"}, {"salt", "b"},
+			{"a", "b", "salt"}, {"a", "salt", "b"}, {"b", "a", "salt"}, {"b", "salt", "a"}, {"salt", "a", "b"}, {"salt", "b", "a"}, {"a", "b", "a"}}
+		seq := seqs[x.Choose(len(seqs), "input:ingredients")]
+		names := [][2]string{{"toast", "none"}, {"0 first", "none"}, {"toast", "zz menu"}, {"toast", "Ab menu"}}[x.Choose(4, "input:recipe-names")]
+		leaf := func(mask int, scale int64) (string, map[string]*big.Rat) {
+			m := map[string]*big.Rat{}
+			text := ""
+			for k := 0; k < 3; k++ {
+				i := k
+				if rev == 1 {
+					i = 2 - k
+				}
+				if mask&(1<<uint(i)) != 0 {
+					v := big.NewRat(scale*int64(i+1), 4)
+					m[els[i]] = v
+					text += "  " + els[i] + ": " + v.FloatString(2) + "\n"
+				}
+			}
+			return text, m
+		}
+		ta, ma := leaf(sa, 1)
+		tb, mb := leaf(sb, 8)
+		resolved := map[string]map[string]*big.Rat{"a": ma, "b": mb}
+		book := "b:\n" + tb
+		top := map[string]*big.Rat{}
+		book += names[0] + ":\n"
+		for i, ing := range seq {
+			q := big.NewRat(int64(i+1), 2)
+			book += "  " + ing + ": " + q.FloatString(1) + "\n"
+			if sub, ok := resolved[ing]; ok {
+				for e, v := range sub {
+					if top[e] == nil {
+						top[e] = new(big.Rat)
+					}
+					top[e].Add(top[e], new(big.Rat).Mul(q, v))
+				}
+			} else {
+				if top[ing] == nil {
+					top[ing] = new(big.Rat)
+				}
+				top[ing].Add(top[ing], q)
+			}
+		}
+		resolved[names[0]] = top
+		book += "a:\n" + ta
+		if names[1] != "none" {
+			book = names[1] + ":\n  " + names[0] + ": 2\n  b: 1\n" + book
+			menu := map[string]*big.Rat{}
+			for e, v := range top {
+				menu[e] = new(big.Rat).Mul(v, big.NewRat(2, 1))
+			}
+			for e, v := range mb {
+				if menu[e] == nil {
+					menu[e] = new(big.Rat)
+				}
+				menu[e].Add(menu[e], v)
+			}
+			resolved[names[1]] = menu
+		}
+		var want []csvWant
+		recipes := []string{}
+		for rn := range resolved {
+			recipes = append(recipes, rn)
+		}
+		sort.Strings(recipes)
+		for _, rn := range recipes {
+			es := []string{}
+			for e := range resolved[rn] {
+				es = append(es, e)
+			}
+			sort.Strings(es)
+			for _, e := range es {
+				want = append(want, csvWant{rn, e, resolved[rn][e]})
+			}
+		}
+		x.Case(book, len(seq) > 1)
+		verify(x, appCase{Args: []string{"csv", "database-resolved"}, Files: map[string]string{"food.yaml": book}}, want, 2, "database-resolved")
+	})
 	w.Explore("csv-database-resolved", ExploreOpts{ShardDepth: 2}, func(x *Exec) {
 		n1 := c13Names[x.Choose(len(c13Names), "input:recipe")]
 		n2 := c13Names[x.Choose(len(c13Names), "input:element")]
